@@ -13,6 +13,16 @@ BIN="$ROOT/.bin/verifx.$$"
 trap 'rm -f "$BIN"' EXIT
 OVL=()
 if [ -n "${VERIF_OVERLAY:-}" ]; then OVL=(-overlay "$VERIF_OVERLAY"); fi
+if [ "$ID" = "C11" ]; then
+  # C11 runs inside testing/synctest bubbles and therefore is a test binary
+  if ! go1.26.8 test -tags verif "${OVL[@]}" -c -o "$BIN" ./checks/c11/ >/tmp/verifx-build.$$.log 2>&1; then
+    echo "INFRA: harness build failed (not a verdict)"; cat /tmp/verifx-build.$$.log; rm -f /tmp/verifx-build.$$.log; exit 2
+  fi
+  rm -f /tmp/verifx-build.$$.log
+  ulimit -v 60000000 2>/dev/null || true
+  "$BIN" -test.timeout 0 | grep -v '^PASS$\|^ok '
+  exit "${PIPESTATUS[0]}"
+fi
 if ! go1.26.8 build -tags verif "${OVL[@]}" -o "$BIN" ./cmd/verifx >/tmp/verifx-build.$$.log 2>&1; then
   echo "INFRA: harness build failed (not a verdict)"; cat /tmp/verifx-build.$$.log; rm -f /tmp/verifx-build.$$.log; exit 2
 fi
